@@ -70,6 +70,17 @@ CHECKS = {
         BASE_NOTE + 'Values restricted to ints, canonical decimal strings, bools; numpy/pandas indexing is third-party.',
         'DESIGN.md section 5 C15',
     ),
+    'C18': (
+        'Rocq proof (codec round trip, total-order laws of the PEP 440 key comparison, generic sorted-dedup listing lemmas) + differential correspondence',
+        'Theorems (Properties/C18.v): every constructible tag reads back from its document unchanged; generation keys are the '
+        'naturals >= 1 with successor, a new generation is numbered above every existing one; the release key comparison is a '
+        'strict total order extending the zero-trimmed release-tuple order; listings (generic over any total order, instantiated '
+        'for generation and release keys) are strictly ascending, contain exactly the distinct inputs and their last element is '
+        'the maximum. Correspondence: byte-level Tag round trips on 7 ordinal kinds, Generation.Key/Release.Key validity and '
+        'order on generated PEP 440 strings, Level.Listing, Manifest write/read.',
+        BASE_NOTE + 'toml, packaging (version parsing), import machinery and zipfile are third-party/runtime: correspondence only; local version segments not modelled.',
+        'DESIGN.md section 5 C18',
+    ),
 }
 NOT_YET = 'model and theorems not built yet in this round (planned, see DESIGN.md section 5/9)'
 
